@@ -1260,43 +1260,63 @@ namespace chaiscript {
           : AST_Node_Impl<T>(std::move(t_ast_node_text), AST_Node_Type::Try, std::move(t_loc), std::move(t_children)) {
       }
 
+      void eval_finally(const chaiscript::detail::Dispatch_State &t_ss) const {
+        if (this->children.back()->identifier == AST_Node_Type::Finally) {
+          this->children.back()->children[0]->eval(t_ss);
+        }
+      }
+
+      /// Must be called from within the handler of the exception that t_except describes: if no catch
+      /// clause accepts it the exception is rethrown (after the finally block) instead of being lost.
       Boxed_Value handle_exception(const chaiscript::detail::Dispatch_State &t_ss, const Boxed_Value &t_except) const {
         Boxed_Value retval;
+        bool handled = false;
 
         size_t end_point = this->children.size();
         if (this->children.back()->identifier == AST_Node_Type::Finally) {
           assert(end_point > 0);
           end_point = this->children.size() - 1;
         }
-        for (size_t i = 1; i < end_point; ++i) {
-          chaiscript::eval::detail::Scope_Push_Pop catch_scope(t_ss);
-          auto &catch_block = *this->children[i];
+        try {
+          for (size_t i = 1; i < end_point; ++i) {
+            chaiscript::eval::detail::Scope_Push_Pop catch_scope(t_ss);
+            auto &catch_block = *this->children[i];
 
-          if (catch_block.children.size() == 1) {
-            // No variable capture
-            retval = catch_block.children[0]->eval(t_ss);
-            break;
-          } else if (catch_block.children.size() == 2 || catch_block.children.size() == 3) {
-            const auto name = Arg_List_AST_Node<T>::get_arg_name(*catch_block.children[0]);
+            if (catch_block.children.size() == 1) {
+              // No variable capture
+              handled = true;
+              retval = catch_block.children[0]->eval(t_ss);
+              break;
+            } else if (catch_block.children.size() == 2 || catch_block.children.size() == 3) {
+              const auto name = Arg_List_AST_Node<T>::get_arg_name(*catch_block.children[0]);
 
-            if (dispatch::Param_Types(
-                    std::vector<std::pair<std::string, Type_Info>>{Arg_List_AST_Node<T>::get_arg_type(*catch_block.children[0], t_ss)})
-                    .match(Function_Params{t_except}, t_ss.conversions())
-                    .first) {
-              t_ss.add_object(name, t_except);
+              if (dispatch::Param_Types(
+                      std::vector<std::pair<std::string, Type_Info>>{Arg_List_AST_Node<T>::get_arg_type(*catch_block.children[0], t_ss)})
+                      .match(Function_Params{t_except}, t_ss.conversions())
+                      .first) {
+                t_ss.add_object(name, t_except);
 
-              if (catch_block.children.size() == 2) {
-                // Variable capture
-                retval = catch_block.children[1]->eval(t_ss);
-                break;
+                if (catch_block.children.size() == 2) {
+                  // Variable capture
+                  handled = true;
+                  retval = catch_block.children[1]->eval(t_ss);
+                  break;
+                }
               }
+            } else {
+              throw exception::eval_error("Internal error: catch block size unrecognized");
             }
-          } else {
-            if (this->children.back()->identifier == AST_Node_Type::Finally) {
-              this->children.back()->children[0]->eval(t_ss);
-            }
-            throw exception::eval_error("Internal error: catch block size unrecognized");
           }
+        } catch (...) {
+          // a catch block was left by an exception (or return/break): the finally block still runs
+          eval_finally(t_ss);
+          throw;
+        }
+
+        if (!handled) {
+          // no clause matched: the exception continues outward
+          eval_finally(t_ss);
+          throw;
         }
 
         return retval;
